@@ -11,7 +11,7 @@ from ..summary import fact_str
 from .common import public_functions, construct, fsite
 from .routing_rules import helpers, table_str
 
-TITLE = ("Equality of VALUES across the alternative implementations is not decided. Decided: (R1) every configuration of "
+TITLE = ("Equality of the S-box variants across configurations is not decided. Decided: (R1) every configuration of "
          "the five platform switches compiles, with clang and with gcc, for all units of the Makefile; (R2) for every function "
          "of the library that does not dispatch through a back-end table, the caller-visible summary - guards on success "
          "paths, return constants, and per object the exact bytes read and written (constant offsets merged to byte "
@@ -20,7 +20,9 @@ TITLE = ("Equality of VALUES across the alternative implementations is not decid
          "updates shows up as a smaller written byte set; (R3) every pure bit-permutation helper (tweakey permutation, Mantis h / "
          "P and inverses; found by bit-granular copy propagation that never combines data bits) has the same routing table "
          "in every configuration; (R4) every other property's rules are run in every configuration "
-         "and reported under their own ids.")
+         "and reported under their own ids. (R5) every SKINNY block function has, as a GF(2) affine map, the linear layer of the shipped configuration; (R6) one round of every tweakey "
+         "schedule loop (TK permutation, LFSR2/LFSR3, round-constant LFSR, what is xored into the schedule word) is the same "
+         "GF(2) affine map as in the shipped configuration.")
 
 
 def canon_loc(prog, loc):
